@@ -512,7 +512,12 @@ def fam_compound(res, s, v):
     if s.params[1]['k'] == 'vec' and s.params[1]['sh']['n'] != n:
         res.und(R1, 'operands of different component counts')
         return
-    body = v.body()
+    def comp_of_index(x):
+        if x[0] == 'idx' and x[1][0] == 'p' and s.params[x[1][1]]['k'] == 'vec' and x[2][0] == 'lit' and x[2][1].denominator == 1 \
+                and 0 <= x[2][1] < 4:
+            return ('m', x[1], COMPS[int(x[2][1])])      # operator[] / pointer view address x,y,z,w in order (R-C04-5)
+        return x
+    body = [map_terms(st, comp_of_index) for st in unroll(list(v.body()))]
     slots, ret = [], None
     for st in body:
         if st[0] == 'expr':
@@ -1136,12 +1141,25 @@ def fam_index(res, s, v):
         res.und(R5, 'operator[]: body is not (assert +) a single return')
         return
     base = idx = None
+    while t[0] == 'ctor' and len(t[2]) == 1 and t[1] is not None and not t[1].startswith('vec_t<'):
+        t = t[2][0]          # const_cast<T &>(...) / T(...) around the element reference
     if t[0] == 'idx':
         base, idx = t[1], t[2]
     elif t[0] == 'u' and t[1] == '*' and t[2][0] == 'b' and t[2][1] == '+':
         base, idx = t[2][2], t[2][3]
         if first_field_addr(base) is None:
             base, idx = idx, base
+    if base is not None and strip_casts(idx) == ('p', 0):
+        b0 = strip_casts(base, pred=lambda ty: True)
+        if b0 == ('this',) and base != ('this',):
+            res.ok(R5, 'operator[](i) = (pointer view of *this)[i]; the pointer view is &x (pointer view family)')
+            return
+        if base == ('this',) and not v.f.get('const'):
+            sib = [g for g in v.tu.functions.values() if g.get('recid') == v.f.get('recid') and g['id'] != v.f['id'] and g.get('const')
+                   and (v.tu.node(g['id']) or {}).get('name') == 'operator[]' and g['dep'] == v.f['dep']]
+            if sib:
+                res.ok(R5, 'non-const operator[] returns the component the const operator[] addresses (decided there)')
+                return
     fld = first_field_addr(base) if base is not None else None
     if fld is None or strip_casts(idx) != ('p', 0):
         res.und(R5, 'operator[]: not of the form (&x)[i]: %s' % show(t, s.names))
@@ -1705,7 +1723,8 @@ def typed_callee_check(res, s, v, tu, f, fam):
     bad = []
     inlined = getattr(getattr(v, 'inl', None), 'used_names', set())
     for name, q, node in v.callees:
-        if name in inlined or '(anonymous class)::operator()' in (q or '') or '(lambda at ' in (q or ''):
+        if name in inlined or '(anonymous class)::operator()' in (q or '') or '(lambda at ' in (q or '') or (
+                name == 'operator[]' and '::vec_t<' in (q or '')):     # element access is a view (R-C04-5), not an operation
             continue          # a helper / lambda whose body was inlined: its own callees are in the list
         cf_params = []
         sd = tu.sd(node)
